@@ -32,6 +32,7 @@ type cliFlags struct {
 	R bool   `json:"r"`
 	T string `json:"t"`
 	E bool   `json:"e"`
+	U bool   `json:"u"`
 	Q string `json:"q"`
 }
 type cliFileSpec struct {
@@ -72,7 +73,13 @@ func cliQueries(q string, variant int) cliQuery {
 	case "num":
 		return cliQuery{expr: "count(//a)"}
 	}
-	switch variant % 4 {
+	switch variant % 6 {
+	case 4: // a prefixed variable given BEFORE the namespace mapping it needs
+		return cliQuery{expr: "//a[. != $n:skip]", args: []string{"-v", "n:skip=zzz", "-s", "n=urn:n"},
+			opts: []xsel.ContextApply{xsel.WithNS("n", "urn:n"), xsel.WithVariableNS("urn:n", "skip", xsel.String("zzz"))}}
+	case 5: // ... and after it
+		return cliQuery{expr: "//a[. != $n:skip]", args: []string{"-s", "n=urn:n", "-v", "n:skip=zzz"},
+			opts: []xsel.ContextApply{xsel.WithNS("n", "urn:n"), xsel.WithVariableNS("urn:n", "skip", xsel.String("zzz"))}}
 	case 1:
 		return cliQuery{expr: "//*[local-name() = 'a'][. != $skip]", args: []string{"-v", "skip=zzz"}, opts: []xsel.ContextApply{xsel.WithVariable("skip", xsel.String("zzz"))}}
 	case 2:
@@ -182,7 +189,7 @@ func cliCase(line string, rep *Report, fnd *Findings) {
 			os.WriteFile(full, []byte(cliContent(e.Cls, strings.ToUpper(strings.ReplaceAll(e.Name, ".", "_")))), 0o644)
 		}
 	}
-	q := cliQueries(gl.Flags.Q, int(h%4))
+	q := cliQueries(gl.Flags.Q, int(h%6))
 	args := []string{"-x", q.expr}
 	args = append(args, q.args...)
 	if gl.Flags.A {
@@ -202,6 +209,9 @@ func cliCase(line string, rep *Report, fnd *Findings) {
 	}
 	if gl.Flags.E {
 		args = append(args, "-e", "foo=bar")
+	}
+	if gl.Flags.U {
+		args = append(args, "-u")
 	}
 	for i, e := range gl.Tree {
 		if e.In == 0 {
@@ -252,7 +262,7 @@ func cliCase(line string, rep *Report, fnd *Findings) {
 			switch sp.Parse {
 			case "xml":
 				cur, rerr = xsel.ReadXml(bytes.NewReader(data), func(d *xml.Decoder) {
-					d.Strict = true
+					d.Strict = !gl.Flags.U
 					if gl.Flags.E {
 						d.Entity = map[string]string{"foo": "bar"}
 					}
